@@ -138,6 +138,13 @@ type c09BatchCase struct {
 	// (overwritten) right after each Add returns - an entry is what was added,
 	// not whatever the caller's buffers hold when Verify runs.
 	Scribble bool `json:"scribble,omitempty"`
+	// OneBuffer: the caller keeps ONE public-key buffer, ONE message buffer and
+	// ONE signature buffer for the whole history and copies each entry into them
+	// before the Add (what a loop decoding entries from the wire does).  The
+	// slices handed to consecutive Adds are then the same objects with different
+	// contents: a verifier that remembers a slice instead of its contents
+	// compares the buffer with itself.
+	OneBuffer bool `json:"onebuffer,omitempty"`
 }
 
 // c09Env holds the per-case derived data shared by the batch and cache checks.
@@ -223,6 +230,10 @@ func c09CheckBatch(c c09BatchCase) h.Result {
 	if c.Scribble {
 		r.Class("caller-reuses-buffers")
 	}
+	if c.OneBuffer {
+		r.Class("caller-has-one-buffer-per-argument")
+	}
+	onePK, oneMsg, oneSig := make([]byte, 0, 64), make([]byte, 0, 4096), make([]byte, 0, 256)
 	resets, verifiesSinceChange := 0, 0
 	type held struct {
 		ent          int
@@ -289,6 +300,16 @@ func c09CheckBatch(c c09BatchCase) h.Result {
 				apk, amsg, asig := hd.pk, hd.msg, hd.sig
 				if c.Scribble {
 					apk, amsg, asig = c09Copy(b.PK), c09Copy(b.Msg), c09Copy(b.Sig)
+				}
+				if c.OneBuffer && len(b.PK) <= cap(onePK) && len(b.Msg) <= cap(oneMsg) && len(b.Sig) <= cap(oneSig) {
+					onePK, oneMsg, oneSig = append(onePK[:0], b.PK...), append(oneMsg[:0], b.Msg...), append(oneSig[:0], b.Sig...)
+					apk, amsg, asig = onePK, oneMsg, oneSig
+					if b.PK == nil {
+						apk = nil
+					}
+					if b.Sig == nil {
+						asig = nil
+					}
 				}
 				if p, pv := h.Catch(func() {
 					switch api {
@@ -427,6 +448,7 @@ func c09GenBatch(t *rapid.T) c09BatchCase {
 	pool, groups := h.C09GenPool(t, cfg)
 	c := c09BatchCase{Pool: pool}
 	c.Scribble = rapid.IntRange(0, 3).Draw(t, "scribble") == 0
+	c.OneBuffer = !c.Scribble && rapid.IntRange(0, 2).Draw(t, "onebuffer") == 0
 	if rapid.IntRange(0, 3).Draw(t, "withcap") == 0 {
 		c.Cap = rapid.SampledFrom([]int{1, 2, 64, 94, 95, 500}).Draw(t, "cap")
 	}
